@@ -239,6 +239,7 @@ func (g *Gen) Step() bool {
 			choice{g.wt("gcburst"), func() { g.opGCBurst(conns) }},
 			choice{g.wt("aliasburst") * boolInt(len(g.qnames) > 0), func() { g.opAliasBurst(conns) }},
 			choice{g.wt("qburst") * boolInt(len(g.qnames) > 0), func() { g.opQBurst() }},
+			choice{g.wt("resetfail"), func() { g.opResetFailBurst() }},
 			choice{g.wt("hostilereq"), func() { g.opHostileReq(conns) }},
 		)
 	}
@@ -809,6 +810,32 @@ func (g *Gen) opThrottleBurst(conns []*Client) {
 		default:
 			g.w.Exec(Op{K: "creq", C: c.Idx, ID: g.nextID(c), M: "subscribe." + rid})
 		}
+	}
+}
+
+// opResetFailBurst: a system reset whose re-fetch fails (timeout or error), and
+// state events for the resource afterwards: the failed re-fetch must not leave
+// the resource deaf to them, nor to later resets.
+func (g *Gen) opResetFailBurst() {
+	if len(g.names) == 0 {
+		return
+	}
+	name := g.sample("rfname", g.names)
+	g.mutate("silent", name, "")
+	g.w.Exec(Op{K: "sysreset", P: `{"resources":[` + jstr(name) + `]}`})
+	for _, pv := range g.w.PendingSorted() {
+		if pv.P.Subject == "get."+name && pv.P.Query == "" {
+			op := Op{K: "ans", S: pv.P.Subject, Q: pv.P.Query, A: actorEnc(pv.Actor), N: pv.Ord, O: "timeout"}
+			if rapid.Bool().Draw(g.t, "rferr") {
+				op.O, op.P = "err", "system.internalError"
+			}
+			g.w.Exec(op)
+			break
+		}
+	}
+	n := rapid.IntRange(1, 2).Draw(g.t, "rfn")
+	for i := 0; i < n; i++ {
+		g.mutate("mut", name, "")
 	}
 }
 
